@@ -391,7 +391,11 @@ def expect_case(case):
     """C04's text on plain names (no excludes beyond literal names): which destination tree must result"""
     src, dst = case["src"], dict(case["dst"])
     ex = set(case.get("excludes", []))
-    excluded = lambda rel: any(part in ex for part in rel.split("/"))
+    if case.get("glob"):
+        import fnmatch
+        excluded = lambda rel: any(fnmatch.fnmatchcase(part, pat) for part in rel.split("/") for pat in ex)
+    else:
+        excluded = lambda rel: any(part in ex for part in rel.split("/"))
     if case.get("dry") or (not src and not case.get("delete")):
         return dst
     for rel, (data, mt) in src.items():
@@ -415,6 +419,9 @@ def scenarios():
         for dry in (False, True):
             for ex in ([], ["skip.tmp"], ["d"]):
                 out.append({"src": src, "dst": dst, "delete": delete, "dry": dry, "excludes": ex})
+    # a `?` in an exclude pattern must match ONE character, also a non-ASCII one
+    out.append({"src": {"n/keep.txt": ("k", T), "n/draft-1.txt": ("1", T), "n/draft-\u00e9.txt": ("e", T)}, "dst": {"n/draft-\u00fc.txt": ("u", T), "n/stale.txt": ("s", T)},
+                "delete": True, "excludes": ["draft-?.txt"], "glob": True})
     out.append({"src": {}, "dst": dst, "delete": True})
     out.append({"src": {}, "dst": dst, "delete": False})
     out.append({"src": {"n": ("1", T)}, "dst": {}, "delete": False})
@@ -457,29 +464,29 @@ def order_witness(R, pid):
         s, d = os.path.join(base, "src"), os.path.join(base, "dst")
         os.makedirs(s)
         os.makedirs(d)
-        _write_tree(s, {"f.txt": ("new-content", 1_700_000_000)})
+        _write_tree(s, {"f.txt": ("new-content", 1_700_000_000), "n.bin": ("brand-new-file", 1_700_000_001)})
         _write_tree(d, {"f.txt": ("old", 1_600_000_000)})
         log = os.path.join(base, "trace.log")
         subprocess.run(["strace", "-f", "-y", "-e", "trace=openat,open,creat,rename,renameat,renameat2,unlink,unlinkat,copy_file_range,write", "-o", log, exe, "sync", "-r", s, d],
                        stdout=subprocess.PIPE, stderr=subprocess.PIPE, text=True, timeout=120)
-        live = os.path.join(d, "f.txt")
-        breach, renamed = None, False
-        for line in open(log, errors="replace"):
-            if live not in line:
+        breach = None
+        for live in (os.path.join(d, "f.txt"), os.path.join(d, "n.bin")):
+          renamed = False
+          for line in open(log, errors="replace"):
+            if breach or live not in line:
                 continue
             # (set_local_mtime opens the delivered file O_WRONLY without O_TRUNC/O_CREAT only to set its times: harmless)
             if re.search(r"(openat|open|creat)\(.*\"%s\".*(O_CREAT|O_TRUNC)" % re.escape(live), line) or \
                re.search(r"(write|copy_file_range|pwrite64)\((\d+<[^>]*>, )*\d+<%s>" % re.escape(live), line):
-                breach = "the destination file is created/truncated/written directly: " + line.strip()[:160]
-                break
+                breach = "the destination file %s is created/truncated/written directly: %s" % (os.path.basename(live), line.strip()[:160])
+                continue
             m = re.search(r"rename\w*\(.*\"([^\"]*)\".*\"%s\"" % re.escape(live), line)
             if m:
                 renamed = True
                 if m.group(1) != live + ".copia-tmp":
-                    breach = "the destination is replaced by a rename from %s, not from its .copia-tmp sibling" % m.group(1)
-                    break
-        if breach is None and not renamed:
-            breach = "no rename onto the destination was observed"
+                    breach = "the destination %s is replaced by a rename from %s, not from its .copia-tmp sibling" % (os.path.basename(live), m.group(1))
+          if breach is None and not renamed:
+            breach = "no rename onto the destination %s was observed" % os.path.basename(live)
         if breach:
             case = {"fn": "copia_sync_local", "src": {"f.txt": ["new-content", 1_700_000_000]}, "dst": {"f.txt": ["old", 1_600_000_000]}, "deviation": breach, "strace": True}
             return {"confirmed": True, "replay_path": R.save_replay("%s/native-order" % pid, case), "key": "%s/native-order" % pid, "detail": "real system calls of a local delivery: " + breach}
